@@ -144,6 +144,14 @@ def impl(case):
     trajs = [np.array(t) for t in G.expand(case)]
     data = mh.LumpedStateTraj([np.array(t) for t in case['macro']], trajs) if case['lumped'] else trajs
     its = mh.msm.implied_timescales(data, case['lags'], ntimescales=case['nts'])
+    keep = np.array(its, dtype=float, copy=True)
+    try:
+        its[...] = -3.0           # the caller owns the result; a second call must not see this
+    except Exception:  # noqa
+        pass
+    its2 = np.asarray(mh.msm.implied_timescales(data, case['lags'], ntimescales=case['nts']), dtype=float)
+    fresh = bool(its2.shape == keep.shape and np.array_equal(its2, keep, equal_nan=True))
+    its = keep
     rows = []
     obj = data if case['lumped'] else mh.StateTraj(trajs)
     for lag in case['lags']:
@@ -155,7 +163,7 @@ def impl(case):
         except Exception as exc:  # noqa
             rows.append({'err': type(exc).__name__})
     return {'its': [['nan' if math.isnan(x) else float(x).hex() for x in r] for r in np.asarray(its, dtype=float)],
-            'shape': list(np.shape(its)), 'rows': rows, 'nstates': int(obj.nstates)}
+            'shape': list(np.shape(its)), 'rows': rows, 'nstates': int(obj.nstates), 'fresh': fresh}
 
 
 def requests(case):
@@ -229,6 +237,8 @@ def judge(case, ibc, answers):
                 P('impl-vs-spec', '*_eigenvalues differ from the values returned by *_eigenvectors')
             continue
         # implied timescales
+        if r.get('fresh') is False:
+            P('impl-vs-spec', 'a second identical call returns other timescales after the first result was overwritten by the caller')
         nts = case['nts'] if case['nts'] is not None else r['nstates'] - 1
         if r['shape'] != [len(case['lags']), nts]:
             P('impl-vs-spec', 'result shape %s, expected %s' % (r['shape'], [len(case['lags']), nts]))
